@@ -4,6 +4,7 @@ package lexer
 
 import (
 	"strings"
+	"unicode"
 
 	"github.com/xjslang/xjs/token"
 )
@@ -119,8 +120,8 @@ func (l *Lexer) readLeadingComments() {
 				l.hadNewlineBefore = true
 				l.ReadChar()
 			}
-			// trailing blanks are dropped, and so is the CR of a CR LF line ending
-			l.leadingComments = append(l.leadingComments, strings.TrimRight(comment.String(), " \r"))
+			// trailing white space is dropped, and so is the CR of a CR LF line ending
+			l.leadingComments = append(l.leadingComments, strings.TrimRightFunc(comment.String(), unicode.IsSpace))
 		}
 
 		if !isWhitespace(l.CurrentChar) {
